@@ -33,5 +33,5 @@ Definition goal_inh : Prop := forall S g (P : velem -> option UmlBlob.pv) v i re
   P v = Some (top_pv (tree_of_inh i)) -> ve_id v = si_id i ->
   parse_inheritance g P v real = Some (rinh0 S i real).
 Definition goal_assoc : Prop := forall S g (P : velem -> option UmlBlob.pv) v x, g_names S g -> assoc_ok S x = true ->
-  P v = Some (top_pv (tree_of_assoc x)) -> ve_id v = sx_id x -> ve_name v = ostr (sx_name x) ->
+  P v = Some (top_pv_c (tree_of_assoc x)) -> ve_id v = sx_id x -> ve_name v = ostr (sx_name x) ->
   parse_association g P v = Some (rassoc_of S x).
